@@ -78,3 +78,100 @@ package memfs
 //@ type FilespaceWrapper
 //@   field basePath immutable
 //@   field fs immutable
+
+// ---- C04 / C09: file content and stream handles ----
+//@ type File
+//@   field name immutable
+//@   field filemode immutable
+//@   field data guarded_by dataMU
+//@   field time guarded_by dataMU
+//@ type FileHandler
+//@   field file immutable
+//@   field pointer owned
+
+// a handle owns the file's data lock from creation until Close
+//@ func NewFileHandler [C04 C09]
+//@   requires file != nil
+//@   acquires file.dataMU
+//@   ensures handler != nil && fresh(handler) && handler.file == file && handler.pointer == 0
+// Write appends exactly the given bytes
+//@ func (*FileHandler).Write [C04 C09]
+//@   requires h.file != nil
+//@   holds h.file.dataMU
+//@   ensures n == len(p) && err == nil
+//@   ensures len(h.file.data) == old(len(h.file.data)) + len(p)
+//@   ensures forall(k, 0 <= k && k < old(len(h.file.data)) ==> h.file.data[k] == old(h.file.data[k]))
+//@   ensures forall(k, 0 <= k && k < len(p) ==> h.file.data[old(len(h.file.data)) + k] == old(p[k]))
+// Read delivers the next min(len(p), remaining) stored bytes, for every buffer size
+//@ func (*FileHandler).Read [C04 C09]
+//@   requires h.file != nil && 0 <= h.pointer && h.pointer <= len(h.file.data)
+//@   holds h.file.dataMU
+//@   ensures result0 == ite(len(p) < old(len(h.file.data) - h.pointer), len(p), old(len(h.file.data) - h.pointer))
+//@   ensures h.pointer == old(h.pointer) + result0 && h.pointer <= len(h.file.data)
+//@   ensures forall(k, 0 <= k && k < result0 ==> p[k] == old(h.file.data[h.pointer + k]))
+//@   ensures (result1 != nil) <==> (h.pointer == len(h.file.data))
+//@   ensures len(h.file.data) == old(len(h.file.data))
+//@ func (*FileHandler).Close [C04 C09]
+//@   requires h.file != nil
+//@   releases h.file.dataMU
+//@   ensures result == nil
+
+// ---- C01: directories as an ordered node list plus a by-name index ----
+// node values are *Dir or *File; their names never change
+//@ type Dir
+//@   field name immutable
+//@   field filemode immutable
+//@   field nodes guarded_by mu
+//@   field index guarded_by mu
+//@   field time guarded_by mu
+//@ define isNode(x iface) bool = (typeis(x, "*memfs.Dir") || typeis(x, "*memfs.File")) && payload(x) != 0
+//@ define nodeName(x iface) string = ite(typeis(x, "*memfs.Dir"), as(x, "*memfs.Dir").name, as(x, "*memfs.File").name)
+// representation invariant: list and index describe the same set of normally named nodes
+//@ define DirInv(d ref) bool = d.index != nil && len(d.index) == len(d.nodes)
+//@ ... && forall(k, 0 <= k && k < len(d.nodes) ==> isNode(d.nodes[k]) && Normal(nodeName(d.nodes[k])) && has(d.index, nodeName(d.nodes[k])) && d.index[nodeName(d.nodes[k])] == d.nodes[k])
+//@ ... && forall(a, forall(b, 0 <= a && a < b && b < len(d.nodes) ==> nodeName(d.nodes[a]) != nodeName(d.nodes[b])))
+//@ ... && foralls(s, has(d.index, s) ==> isNode(d.index[s]) && nodeName(d.index[s]) == s)
+//@ iface os.FileInfo.Name(self) (s)
+//@   pure
+//@   ensures isNode(self) ==> s == nodeName(self)
+//@ iface os.FileInfo.IsDir(self) (b)
+//@   pure
+//@   ensures typeis(self, "*memfs.Dir") ==> b
+//@   ensures typeis(self, "*memfs.File") ==> !b
+//@ func (*Dir).Name [C01]
+//@   modifies $none
+//@   ensures result == d.name
+//@ func (*File).Name [C01]
+//@   modifies $none
+//@   ensures result == f.name
+//@ func (*Dir).IsDir [C01]
+//@   ensures result
+//@ func (*File).IsDir [C01]
+//@   ensures !result
+
+//@ func (*Dir).contains [C01 C09]
+//@   requires DirInv(d)
+//@   modifies $none
+//@   ensures result == has(d.index, name)
+//@ func (*Dir).getNode [C01 C09]
+//@   requires DirInv(d)
+//@   modifies $none
+//@   ensures (err == nil) == has(d.index, nodeName)
+//@   ensures err == nil ==> node == d.index[nodeName] && isNode(node)
+//@   ensures err != nil ==> node == nil
+//@ func (*Dir).getDir [C01 C09]
+//@   requires DirInv(d)
+//@   modifies $none
+//@   ensures (err == nil) == (has(d.index, nodeName) && typeis(d.index[nodeName], "*memfs.Dir"))
+//@   ensures err == nil ==> dir != nil && ref(dir) == payload(d.index[nodeName])
+//@   ensures err != nil ==> dir == nil
+// addNode: atomic check-and-insert; rejected when the name exists, nothing changes then
+//@ func (*Dir).addNode [C01 C09]
+//@   requires DirInv(d) && isNode(newNode) && Normal(nodeName(newNode))
+//@   modifies memfs.Dir.nodes, M:string:fs.FileInfo, E:fs.FileInfo, $maplen
+//@   ensures DirInv(d)
+//@   ensures (result == nil) == !old(has(d.index, nodeName(newNode)))
+//@   ensures result == nil ==> len(d.nodes) == old(len(d.nodes)) + 1 && d.nodes[len(d.nodes) - 1] == newNode && has(d.index, nodeName(newNode)) && d.index[nodeName(newNode)] == newNode
+//@   ensures result == nil ==> forall(k, 0 <= k && k < old(len(d.nodes)) ==> d.nodes[k] == old(d.nodes[k]))
+//@   ensures result == nil ==> foralls(s, s != nodeName(newNode) ==> has(d.index, s) == old(has(d.index, s)) && d.index[s] == old(d.index[s]))
+//@   ensures result != nil ==> len(d.nodes) == old(len(d.nodes)) && foralls(s, has(d.index, s) == old(has(d.index, s)) && d.index[s] == old(d.index[s]))
